@@ -81,7 +81,8 @@ pub(super) fn parse(bytes: &[u8]) -> Result<TimeZone, Error> {
     let extra_rule = match footer {
         Some(footer) => {
             let footer = str::from_utf8(footer)?;
-            if !(footer.starts_with('\n') && footer.ends_with('\n')) {
+            // a footer is NL, TZ string, NL: two bytes at least (a file cut after the first NL is truncated)
+            if footer.len() < 2 || !(footer.starts_with('\n') && footer.ends_with('\n')) {
                 return Err(Error::InvalidTzFile("invalid footer"));
             }
 
